@@ -167,6 +167,11 @@ class Check:
         base['VERIF_ND_SEED'] = str(lsseed)
         base['PYTHONHASHSEED'] = str(hashseed)
         base['CC'] = 'cc'
+        # environment-derived options: the same values for every member of a group, only their position varies
+        base['CFLAGS'] = '-DFROM_ENV_CFLAGS -O1'
+        base['CPPFLAGS'] = '-DFROM_ENV_CPPFLAGS'
+        base['LDFLAGS'] = '-Wl,-O1'
+        base['PKG_CONFIG_PATH'] = '/nonexistent/a:/nonexistent/b'
         for k in range(3):
             base[f'VERIF_EXTRA_{k}'] = f'v{k}'
         if pad:
